@@ -177,6 +177,8 @@ type sys struct {
 	head     string
 	tag      string
 	dead     bool
+	now      int64  // unix seconds of the local clock (variant "expiry": advances 12 s per operation)
+	tp       uint64 // trusting period in seconds (0 = far away)
 }
 
 var sharedHost = c07.NewHost()
@@ -192,6 +194,13 @@ func New(uni []Node, tag string) bfs.System {
 	s.ctx = s.h.Ctx(time.Unix(int64(baseTime)+1000, 0))
 	g := toProto(s.hdr["G"])
 	cs := &ethclient.ClientState{Header: *g, ChainId: 4, ContractAddress: common.HexToAddress("0x20000001").Bytes(), TrustingPeriod: 10_000_000, TimeDelay: 0, BlockDelay: 1}
+	s.now = int64(baseTime) + 1000
+	if strings.Contains(tag, "expiry") {
+		// the genesis header leaves the trusting period after the second operation while its descendants are still inside it:
+		// updates then prune the oldest consensus state (and its header / root index)
+		s.tp = 1020
+		cs.TrustingPeriod = s.tp
+	}
 	cons := &ethclient.ConsensusState{Timestamp: g.Time, Height: g.Height, Root: g.Root}
 	k := s.h.C.App.XIBCKeeper.ClientKeeper
 	if strings.Contains(tag, "via-upgrade") {
@@ -249,6 +258,10 @@ func (s *sys) parentOf(name string) string {
 	return ""
 }
 
+func (s *sys) expired(name string) bool {
+	return s.tp > 0 && int64(s.hdr[name].Time)+int64(s.tp) < s.now
+}
+
 func (s *sys) Ops() []string {
 	if s.dead {
 		return nil
@@ -256,6 +269,9 @@ func (s *sys) Ops() []string {
 	var out []string
 	for _, n := range s.uni {
 		out = append(out, "sub "+n.Name)
+	}
+	if s.tp > 0 {
+		return out // (the clock makes every state distinct: submissions only)
 	}
 	// rule mutations of a child of the current head
 	for _, n := range s.uni {
@@ -285,6 +301,10 @@ func (s *sys) Apply(op string) (obs, class string, viols []bfs.Viol) {
 	add := func(sig, d string) { viols = append(viols, bfs.Viol{Sig: "C10:" + sig, Detail: d}) }
 	f := strings.Fields(op)
 	name := f[1]
+	if s.tp > 0 {
+		s.now += 12
+		s.ctx = s.ctx.WithBlockTime(time.Unix(s.now, 0))
+	}
 	cctx, write := c07.ForkW(s.ctx, s.ctx.BlockTime())
 	if f[0] == "mut" {
 		h := gethHeader(s.hdr[s.parentOf(name)], name, "", f[2])
@@ -300,6 +320,12 @@ func (s *sys) Apply(op string) (obs, class string, viols []bfs.Viol) {
 	if err != nil {
 		if strings.HasPrefix(err.Error(), "panic") {
 			add("update-panics", fmt.Sprintf("submitting %s: %v", name, err))
+		}
+		if s.expired(s.head) {
+			return "rej", "client expired (its head left the trusting period)", viols
+		}
+		if s.accepted[parent] && s.expired(parent) {
+			return "rej", "child of a header that left the trusting period (may have been pruned)", viols
 		}
 		if s.accepted[parent] {
 			add("valid-child-of-stored-header-rejected"+s.tag, fmt.Sprintf("header %s (valid child of stored %s) rejected with head=%s, accepted=%v: %v", name, parent, s.head, s.acceptedList(), err))
@@ -355,7 +381,7 @@ func (s *sys) consNames() []string {
 }
 
 func (s *sys) Key() string {
-	return fmt.Sprintf("acc=%v head=%s cons=%v", s.acceptedList(), s.head, s.consNames())
+	return fmt.Sprintf("acc=%v head=%s cons=%v now=%d", s.acceptedList(), s.head, s.consNames(), s.now)
 }
 
 // Check: head is the last accepted header and every consensus state on the head's ancestry is that ancestor's root.
@@ -370,6 +396,9 @@ func (s *sys) Check() []bfs.Viol {
 	for n := s.head; n != ""; n = s.parentOf(n) {
 		h := s.hdr[n]
 		cons, ok := s.h.C.App.XIBCKeeper.ClientKeeper.GetClientConsensusState(s.ctx, Client, clienttypes.NewHeight(0, h.Number.Uint64()))
+		if !ok && s.expired(n) {
+			break // pruned after leaving the trusting period (allowed)
+		}
 		if !ok || !bytes.Equal(cons.GetRoot(), h.Root[:]) {
 			got := "(none)"
 			if ok {
